@@ -203,6 +203,12 @@ fn check3(rng: &mut Rng) {
                     if !at_vertex {
                         let e = (c.vtx(k + 1) - c.vtx(k)).normalize();
                         v.require((d.into_inner() - e).norm() < 1e-9, "station.direction_parallel_to_edge", || format!("l={l:e}"));
+                    } else if strict {
+                        // the same place by vertex index / by iterating vertices
+                        let vi = ls.iter().position(|x| *x == l).unwrap();
+                        let it = c.iter().nth(vi).unwrap();
+                        v.require((it.point() - s.point()).norm() == 0.0 && it.index() == k && it.fraction() == fr && (it.direction().into_inner() - d.into_inner()).norm() == 0.0,
+                            "station.same_by_iteration", || format!("vi={vi}: by length ({k},{fr}) by iteration ({},{})", it.index(), it.fraction()));
                     }
                     if lt > 0.0 {
                         if let Some(sf) = c.at_fraction(l / lt) {
